@@ -448,7 +448,7 @@ func init() {
 	fw.Register(&fw.Check{
 		ID:    "C14",
 		Level: "model_checking",
-		Rule: "(a) every file of the recorded corpus corpus/v1_1 (dumps of the accepted programs of K and S written by the pinned build, plus hand-assembled files: every opcode incl. NOP and a terminating LOOP, negative/extreme ints, bool and nil constants, minor version 0, 2- and 3-byte operand indices) is loaded and executed by the real code and must reproduce the recorded output/blocks/binding/error; " +
+		Rule: "(0) c14.longloop: a hand-assembled countdown loop (GETLOCAL JFALSE POP GETLOCAL ONE SUB SETLOCAL POP LOOP) of 0..15 million rounds (thorough 250 million): small counts against the reference VM, large ones against the closed form; (a) every file of the recorded corpus corpus/v1_1 (dumps of the accepted programs of K and S written by the pinned build, plus hand-assembled files: every opcode incl. NOP and a terminating LOOP, negative/extreme ints, bool and nil constants, minor version 0, 2- and 3-byte operand indices) is loaded and executed by the real code and must reproduce the recorded output/blocks/binding/error; " +
 			"(b) all instruction sequences of length <=L (quick 4, thorough 5) over a 38-instruction alphabet with an 8-constant pool, assembled by the independent encoder, filtered by the verifier, executed by the real LoadProg+Execute and by the reference VM (pinned opcode numbers) — results must agree; " +
 			"(c) the dump of every accepted program of K, S and the C02-C04 enumerations is decoded by the independent decoder (documented layout, pinned numbers), re-encoded byte-identically, and re-executed by the reference VM to the same result as the real execution. distinct_nontrivial = files/sequences/programs actually compared.",
 		Subs:           []*fw.Sub{subC14Dec, subC14Seq, subC14File, subC14Loop},
